@@ -9,6 +9,7 @@ import (
 	"go/ast"
 	"go/token"
 	"go/types"
+	"regexp"
 	"sort"
 	"strings"
 )
@@ -26,6 +27,7 @@ func init() {
 			{"PAR-FORCLAUSE", 1, ruleParForClause},
 			{"HND-RANGEINT", 1, ruleHndRangeInt},
 			{"PAR-RETURNLINE", 1, ruleParReturnLine},
+			{"PAR-LINEBREAK", 1, ruleParLineBreak},
 			{"PAR-IFCHAIN", 1, ruleParIfChain},
 		},
 	})
@@ -938,4 +940,107 @@ func ruleParIfChain(c *Ctx, r *R) {
 	if n == 0 {
 		r.undecided("ifNud", c.Pos(fd), "no else-if chain step (x.Append(y); x = y) found")
 	}
+}
+
+// PAR-LINEBREAK: a statement ends at a line break the way Go's semicolon rule says: when the
+// last token of a line can end a statement (identifier, literal, break/continue/return, ++, --,
+// ), ] or }), the next line's first token is not an operator, call or index applied to it.
+// The precedence-climbing loop of doExpression therefore has a conjunct that stops it at such
+// a line break.  Decided on the helper the loop condition calls: every path on which it
+// answers "stop" compares the line of the current token with the previous token's, and the
+// previous-token symbols it stops after include every operand-final symbol.
+var strLitRe = regexp.MustCompile(`"((?:[^"\\]|\\.)*)"`)
+
+var stmtFinalSymbols = []string{"(name)", "(int)", "(float)", "(char)", "(string)", ")", "]", "}", "++", "--", "break", "continue", "return", "true", "false", "nil"}
+
+func ruleParLineBreak(c *Ctx, r *R) {
+	fd := c.Func("parser.doExpression")
+	if fd == nil {
+		r.undecided("loop", "-", "parser.doExpression not found")
+		return
+	}
+	var loop *ast.ForStmt
+	ast.Inspect(fd.Body, func(n ast.Node) bool {
+		f, ok := n.(*ast.ForStmt)
+		if !ok || f.Cond == nil || loop != nil {
+			return true
+		}
+		if strings.Contains(c.Src(f.Cond), ".Lbp") {
+			loop = f
+		}
+		return true
+	})
+	if loop == nil {
+		r.undecided("loop", c.Pos(fd), "no precedence-climbing loop found in doExpression")
+		return
+	}
+	var best *ast.FuncDecl
+	var bestMissing []string
+	bestBad := ""
+	for _, cj := range conjuncts(loop.Cond) {
+		un, ok := unparen(cj).(*ast.UnaryExpr)
+		if !ok || un.Op != token.NOT {
+			continue
+		}
+		call, ok := unparen(un.X).(*ast.CallExpr)
+		if !ok {
+			continue
+		}
+		h := c.DeclOf(c.Callee(call))
+		if h == nil || h.Body == nil {
+			continue
+		}
+		in := newInterp(c)
+		in.Inline = func(o types.Object) bool { return c.isNewHelper(o) }
+		states := in.ExecFunc(h, nil)
+		if in.Overflow {
+			continue
+		}
+		seen := map[string]bool{}
+		bad := ""
+		stops := 0
+		for _, st := range states {
+			if st.Done == "panic" || len(st.Ret) != 1 {
+				continue
+			}
+			if st.Ret[0].Op == "const" && st.Ret[0].Name == "false" {
+				continue
+			}
+			stops++
+			lineCmp := false
+			for _, cd := range st.Conds {
+				s := cd.String()
+				if strings.Count(s, "Pos.Line") >= 2 && strings.Contains(s, "Token.Pos.Line") {
+					lineCmp = true
+				}
+				if strings.Contains(s, "Symbol") && !strings.HasPrefix(s, "!") && !strings.HasPrefix(s, "not") {
+					for _, m := range strLitRe.FindAllStringSubmatch(s, -1) {
+						seen[m[1]] = true
+					}
+				}
+			}
+			if !lineCmp {
+				bad = "a path of " + h.Name.Name + " ends the expression without comparing the current token's line with the previous token's"
+			}
+		}
+		if stops == 0 {
+			continue
+		}
+		var missing []string
+		for _, s := range stmtFinalSymbols {
+			if !seen[s] {
+				missing = append(missing, s)
+			}
+		}
+		if best == nil || len(missing) < len(bestMissing) {
+			best, bestMissing, bestBad = h, missing, bad
+		}
+	}
+	if best == nil {
+		r.fail("line break ends the expression", c.Pos(loop), "the precedence-climbing loop of doExpression has no line-break condition: a line starting with ( [ or an operator is glued to the statement before it — `x := y` then `(p).f()` parses as the call y(p).f()")
+		return
+	}
+	r.check(bestBad == "", "line break only", c.Pos(best), best.Name.Name+" stops the loop only when the current token starts a later line", bestBad+": an expression is cut in the middle of a line")
+	r.check(len(bestMissing) == 0, "statement-final tokens", c.Pos(best), best.Name.Name+" stops after every token that can end a statement",
+		best.Name.Name+" does not end the expression at a line break after "+strings.Join(bestMissing, " ")+": the next line's ( [ or operator is applied to the previous statement")
 }
